@@ -102,10 +102,11 @@ def r03a(ctx, only=None):
             ctx.inconclusive("R03a", fb.file, f"{short}.bounds", u.node, f"{short}: {u.ident}",
                              f"source `{u.ident}` in {short} is not an attribute, collection or constant-edit population")
             continue
-        if delegate:
+        if delegate and not rb and not cb:
             ctx.proved("R03a", fb.file, f"{short}.bounds", fb.node, f"{short}: bounds sums self.edits()",
                        "bounds() iterates self.edits(): identical by construction")
             continue
+        mixed_ = next((s_ for s_ in sb if s_.kind == "=edits()"), None) if delegate else None
         problems = []
         only_b = sorted(set(rb) - set(re_))
         only_e = sorted(set(re_) - set(rb))
@@ -132,6 +133,14 @@ def r03a(ctx, only=None):
                                          f"listed sub-edits", f"{ctor} population"))
         if only is not None:
             problems = [p_ for p_ in problems if p_[2].startswith(tuple(only))]
+        if problems and mixed_ is not None:
+            # two formulas: one path sums self.edits(), another adds up sources of its own that are not that sum (the problems
+            # reported below): the interval jumps when the condition flips - below its earlier lower bound if the second
+            # formula over-estimates, so earlier intervals do not contain the final cost
+            ctx.violation("R03a", fb.file, f"{short}.bounds", mixed_.node, f"{short}: two formulas",
+                          f"{short}.bounds() sums self.edits() on one path ({' and '.join(mixed_.guard) or 'unconditionally'}) and adds up "
+                          f"{sorted(rb) + [c.name for c in cb]} on another, which is not the same sum ({problems[0][2]}): the interval jumps when "
+                          f"the condition flips, so the intervals reported before need not contain the final cost")
         if problems:
             for node, why, tag in problems:
                 ctx.violation("R03a", fb.file, f"{short}.bounds", node, f"{short}: {tag}", f"{short}: {why}")
